@@ -12,10 +12,9 @@ Regenerated from the source on every run:
     bit_range))` block, under `if let Some(context)`, same bit range / memory operation / memory map)
                                                                            -> g_gate / g_select / g_check
   * MemoryOperation::from_crash_reason and is_possibly_allowed_for (match arms) -> g_memop_of_access / g_allowed
-  * bitflip::try_bit_flips: fixed skeleton (early exit, xor, null rule, lookup + permission)
-  * get_exception_details: the adjusted-address computation (null pointer first, then non-canonical),
-    try_detect_null_pointer_in_disguise, try_get_non_canonical_crash_address (cpu gate, range constant),
-    represents_general_protection_fault (match arms)                       -> NON_CANONICAL_LO/HI, g_gpf, skeleton pins
+  * try_get_non_canonical_crash_address: the NON_CANONICAL_RANGE constant     -> NON_CANONICAL_LO/HI
+    (bitflip::try_bit_flips, calculate_heuristics, the adjusted-address helpers, represents_general_protection_fault and
+     MinidumpException::get_crash_address are no longer pinned here: translate/c19_src.py COMPILES them -> Gen/C19Src.v)
   * BitFlipDetails::confidence: the guard and the index expression of the NEARBY_REGISTER lookup
                                                                            -> NEARBY_GUARD / NEARBY_INDEX
 """
